@@ -399,6 +399,10 @@ def run_meta(exe, case, scratch, timeout=30.0):
             if ev[0] == "s":
                 r = T.walkers[w].do(["pos 1 0 0 %s" % float(ev[2] + 0.5).hex(), "step", "errtext", "dumpmeta m"], timeout)
                 out.append((w, snap, parse_meta(r)))
+            elif ev[0] == "k":
+                # killed without any final output; a new job starts from the last checkpoint <prefix>.colvars.state of this walker
+                r = T.walkers[w].do(meta_setup(case, rid(case, w), reg, "out%d" % gen[w], case["restartfreq"][w], load="out%d" % gen[w]), timeout)
+                out.append((w, snap, parse_meta(r)))
             elif ev[0] == "r":
                 if ev[2]:
                     gen[w] += 1
